@@ -277,7 +277,8 @@ loop:
 			// HTTP error, probably a 503
 			err = httperror.FromResponse(response)
 		}
-		if response != nil && response.StatusCode == http.StatusNotAcceptable && encodings != "" {
+		if response != nil && encodings != "" &&
+			(response.StatusCode == http.StatusNotAcceptable || response.StatusCode == http.StatusUnsupportedMediaType) {
 			// try again without compression
 			encodings = ""
 			goto loop
